@@ -409,6 +409,7 @@ def main():
     distinct = set()
     nontrivial = set()
     thm_instances = 0
+    thm_by_engine = {}   # engine -> cases whose input was DECIDED to meet the hypotheses of the engine's theorem
     samples = []
     hist_all = {}
     viols, diffs, knowns, bads = [], [], {}, []
@@ -425,6 +426,7 @@ def main():
                 nontrivial.add(k)
             if verdict == "ok" and rest and rest[-1] == "thm":
                 thm_instances += 1
+                thm_by_engine[engine] = thm_by_engine.get(engine, 0) + 1
             if verdict == "viol":
                 tags = rest[0].split(",") if rest else []
                 if rest and pid not in tags and all(re.fullmatch(r"C\d+", t) for t in tags):
@@ -530,6 +532,7 @@ def main():
             "samples": samples[:8], "input_distribution": hist_all,
             "known_findings_reproduced": {k: len(v) for k, v in knowns.items()},
             "cases_meeting_whole_run_theorem_hypotheses": thm_instances,
+            "cases_meeting_theorem_hypotheses_by_engine": thm_by_engine,
             "violations_of_other_properties_seen": len(other_prop_viols),
             "broken": broken, "model_impl_disagreements": len(diffs), "widened_search_cases": widened,
             "judge_tables": judge_tables,
